@@ -102,6 +102,36 @@ Lemma emptiness_looks_through_pointers s isnil n :
   validate_required (WPtr (WPtr (WSlice isnil n))) = validate_required (WSlice isnil n).
 Proof. split; reflexivity. Qed.
 
+(* a chain of n non-nil pointers around a value *)
+Fixpoint ptrs (n : nat) (w : vview) : vview := match n with O => w | S k => WPtr (ptrs k w) end.
+
+Lemma chase_ptrs n w : chase_view (ptrs n w) = chase_view w.
+Proof. induction n as [|n IH]; [reflexivity|]. cbn [ptrs chase_view]. exact IH. Qed.
+
+(* nonzero judges the string at the end of a chain of pointers of any length *)
+Lemma nonzero_string_behind_pointers n s :
+  validate_nonzero (ptrs n (WPrim (CS s))) = Ok tt <-> s <> "".
+Proof.
+  destruct n as [|n]; [apply nonzero_string_means_nonempty|].
+  cbn [ptrs]. unfold validate_nonzero, nonempty_view.
+  cbn [chase_view]. rewrite chase_ptrs. cbn [chase_view].
+  destruct (String.eqb s "") eqn:E; split; intro H; try discriminate; try reflexivity.
+  - apply String.eqb_eq in E. contradiction.
+  - intro X. subst. discriminate.
+Qed.
+
+(* required rejects the empty or nil list at the end of a chain of pointers *)
+Lemma required_list_behind_pointers n isnil len :
+  validate_required (ptrs (S n) (WSlice isnil len)) = Ok tt <-> (isnil = false /\ len <> 0%nat).
+Proof.
+  cbn [ptrs]. unfold validate_required, nonempty_view.
+  cbn [chase_view]. rewrite chase_ptrs. cbn [chase_view].
+  destruct isnil; [split; [discriminate|intros [H _]; discriminate]|].
+  destruct (Nat.eqb len 0) eqn:E.
+  - split; [discriminate|]. intros [_ H]. apply PeanoNat.Nat.eqb_eq in E. contradiction.
+  - split; [intros _; split; [reflexivity|apply PeanoNat.Nat.eqb_neq; exact E]|reflexivity].
+Qed.
+
 Lemma required_rejects_nil_pointer : validate_required WPtrNil = Err ERequired "".
 Proof. reflexivity. Qed.
 
